@@ -696,6 +696,10 @@ pub fn gen_events_opt(rng: &mut Rng, faults: bool, stalls: bool) -> E2Scn {
     };
     let mut s = s;
     s.err_plan.slow_ms = slow_ms;
+    s.raw_changes = rng.chance(1, 5);
+    if rng.chance(1, 5) {
+        s.nudges.push(*rng.pick(&[0u64, 1, 10, 50, 200]));
+    }
     s
 }
 
@@ -863,6 +867,12 @@ pub fn shrink_e2(s: &E2Scn) -> Vec<E2Scn> {
                 out.push(c);
             }
         };
+    }
+    drop_each!(nudges);
+    if s.raw_changes {
+        let mut c = s.clone();
+        c.raw_changes = false;
+        out.push(c);
     }
     drop_each!(filter_slow);
     drop_each!(watch_slow);
@@ -1450,6 +1460,14 @@ pub fn gen_fswatch(rng: &mut Rng, faults: bool) -> E2Scn {
     if faults && rng.chance(1, 4) {
         s.err_plan.slow_ms = *rng.pick(&[10u64, 60, 300]);
     }
+    // the documented "advanced" way of changing things: replace the public field, call signal_change() by hand
+    s.raw_changes = rng.chance(1, 4);
+    // ... and change signals with nothing changed
+    for _ in 0..rng.below(3) {
+        if rng.chance(1, 2) {
+            s.nudges.push(*rng.pick(&[0u64, 1, 10, 50, 200, 1000]));
+        }
+    }
     s
 }
 
@@ -1506,6 +1524,7 @@ pub fn exh_fswatch(mut idx: u64, max_len: u32) -> Option<E2Scn> {
     let init = idx % 3;
     idx /= 3;
     let spaced = idx % 2 == 1;
+    let raw_changes = idx0 % 5 == 3;
     idx /= 2;
     let mut s = E2Scn { family: "fswatch-exh".into(), throttle: 10, ..Default::default() };
     s.init_paths = match init {
@@ -1519,6 +1538,7 @@ pub fn exh_fswatch(mut idx: u64, max_len: u32) -> Option<E2Scn> {
         s.cfg_steps.push(CfgStep { gap: if spaced { 100 } else if i == 0 { 1 } else { 0 }, change: alpha[k].clone() });
     }
     s.hash_seed = idx0 % 4;
+    s.raw_changes = raw_changes;
     Some(s)
 }
 
